@@ -2,6 +2,7 @@ package goja
 
 import (
 	"math"
+	"strings"
 
 	"github.com/dop251/goja/unistring"
 )
@@ -25,7 +26,12 @@ type vC01Str3 struct {
 
 // vC01NewStr: a receiver string with a concrete shape (representation, length) and symbolic content
 func vC01NewStr(name string, maxU int) *vC01Str3 {
-	shape := vChoice(name+".shape", 2*maxU+1) // 0..maxU: ascii of that length; maxU+1..2maxU: unicode of length 1..maxU
+	shape := 0 // 0..maxU: ascii of that length; maxU+1..2maxU: unicode of length 1..maxU
+	if vBound("SH") == 0 {
+		shape = []int{0, maxU, 2 * maxU}[vChoice(name+".shape", 3)] // reduced: empty, ascii maxU, unicode maxU
+	} else {
+		shape = vChoice(name+".shape", 2*maxU+1)
+	}
 	x := &vC01Str3{}
 	if shape <= maxU {
 		n := shape
@@ -58,41 +64,38 @@ func vC01UnitsOf(s String) []uint16 {
 	return u
 }
 
-// vC01IsSub: got has exactly the units units[from:to] (from/to may be symbolic, len(got) is concrete)
+// vC01IsSub: got has exactly the units units[from:to] (from/to may be symbolic, len(got) is concrete). Branch-free.
 func vC01IsSub(got []uint16, units []uint16, from, to int64) bool {
 	ok := int64(len(got)) == to-from
-	if from < 0 || to > int64(len(units)) || from > to {
-		return false
+	if from < 0 {
+		ok = false
+	}
+	if to > int64(len(units)) {
+		ok = false
 	}
 	for i := range got {
-		k := from + int64(i)
-		var w uint16
-		if k >= 0 && k < int64(len(units)) {
-			w = units[k]
-		}
-		if got[i] != w {
+		if got[i] != vC01UnitAt(units, from+int64(i)) {
 			ok = false
 		}
 	}
 	return ok
 }
 
-// vC01Arg: an argument that is either absent (undefined) or an arbitrary Number; integer = ToIntegerOrInfinity
-// clamped to int64 (all receivers are far shorter than 2^63, so the clamp is unobservable)
+// vC01Arg: an argument that is either absent (undefined) or a value whose ToIntegerOrInfinity (clamped to int64 as
+// goja's ToInteger documents) is an ARBITRARY int64 (vC17Arg: every int64 is the ToInteger of some Number up to
+// float granularity; the Number -> integer conversion itself is decided by C05)
 type vC01Arg struct {
 	undef bool
 	v     Value
-	i     int64  // ToIntegerOrInfinity, clamped
-	bits  uint64 // the double
+	i     int64
 }
 
 func vC01NewArg(name string, mayBeUndefined bool) vC01Arg {
 	if mayBeUndefined && vChoice(name+".undefined", 2) == 1 {
-		return vC01Arg{undef: true, v: _undefined, i: 0, bits: math.Float64bits(math.NaN())}
+		return vC01Arg{undef: true, v: _undefined, i: 0}
 	}
-	v := vNumber(name)
-	b := vNumberBits(v)
-	return vC01Arg{v: v, i: refToIntegerClamp(b), bits: b}
+	a := vC17IntArg(name, nil)
+	return vC01Arg{v: a, i: a.i}
 }
 
 type refC01Range struct{ from, to int64 }
@@ -200,108 +203,711 @@ func vC01IsNaNValue(v Value) bool {
 	return ok && float64(f) != float64(f)
 }
 
-func H_C01_strIntArgs() {
+// substring / slice / substr (bound M selects the method: one harness id per method)
+func H_C01_strRange() {
 	r := vRuntime()
 	x := vC01NewStr("s", vBound("U"))
 	l := int64(len(x.units))
-	lo, hi := vBound("MLO"), vBound("MHI")
-	m := lo + vChoice("method", hi-lo+1)
-	a0 := vC01NewArg("a0", m != 3 && m != 4 && m != 5 && m != 6)
+	m := vBound("M")
+	a0 := vC01NewArg("a0", false)
+	a1 := vC01NewArg("a1", true)
+	call := FunctionCall{This: x.val, Arguments: []Value{a0.v, a1.v}}
 	var res Value
+	var w refC01Range
+	p := vC01Guard(func() {
+		switch m {
+		case 0:
+			res = r.stringproto_substring(call)
+		case 1:
+			res = r.stringproto_slice(call)
+		default:
+			res = r.stringproto_substr(call)
+		}
+	})
 	switch m {
-	case 0: // substring(start, end)
-		a1 := vC01NewArg("a1", true)
-		p := vC01Guard(func() {
-			res = r.stringproto_substring(FunctionCall{This: x.val, Arguments: []Value{a0.v, a1.v}})
-		})
-		vAssert("substring:no-go-panic", !p)
-		if p {
-			return
+	case 0:
+		w = refC01Substring(l, a0.i, a1.i, a1.undef)
+	case 1:
+		w = refC01Slice(l, a0.i, a1.i, a1.undef)
+	default:
+		w = refC01Substr(l, a0.i, a1.i, a1.undef)
+	}
+	vAssert("range:no-go-panic", !p)
+	if p {
+		return
+	}
+	s, isStr := res.(String)
+	vAssert("range:result-is-string", isStr)
+	if !isStr {
+		return
+	}
+	vAssert("range:result==units-selected-by-the-specification", vC01IsSub(vC01UnitsOf(s), x.units, w.from, w.to))
+}
+
+// at / charAt / charCodeAt / codePointAt (bound M selects the method)
+func H_C01_strPos() {
+	r := vRuntime()
+	x := vC01NewStr("s", vBound("U"))
+	l := int64(len(x.units))
+	m := vBound("M")
+	a0 := vC01NewArg("a0", false)
+	call := FunctionCall{This: x.val, Arguments: []Value{a0.v}}
+	var res Value
+	p := vC01Guard(func() {
+		switch m {
+		case 0:
+			res = r.stringproto_at(call)
+		case 1:
+			res = r.stringproto_charAt(call)
+		case 2:
+			res = r.stringproto_charCodeAt(call)
+		default:
+			res = r.stringproto_codePointAt(call)
 		}
-		w := refC01Substring(l, a0.i, a1.i, a1.undef)
-		s, isStr := res.(String)
-		vAssert("substring:string", isStr)
-		vAssert("substring==units[min(clamp(start),clamp(end)) : max(..)]", isStr && vC01IsSub(vC01UnitsOf(s), x.units, w.from, w.to))
-	case 1: // slice(start, end)
-		a1 := vC01NewArg("a1", true)
-		p := vC01Guard(func() {
-			res = r.stringproto_slice(FunctionCall{This: x.val, Arguments: []Value{a0.v, a1.v}})
-		})
-		vAssert("slice:no-go-panic", !p)
-		if p {
-			return
-		}
-		w := refC01Slice(l, a0.i, a1.i, a1.undef)
-		s, isStr := res.(String)
-		vAssert("slice:string", isStr)
-		vAssert("slice==units[rel(start):rel(end)]", isStr && vC01IsSub(vC01UnitsOf(s), x.units, w.from, w.to))
-	case 2: // substr(start, length)
-		a1 := vC01NewArg("a1", true)
-		p := vC01Guard(func() {
-			res = r.stringproto_substr(FunctionCall{This: x.val, Arguments: []Value{a0.v, a1.v}})
-		})
-		vAssert("substr:no-go-panic", !p)
-		if p {
-			return
-		}
-		w := refC01Substr(l, a0.i, a1.i, a1.undef)
-		s, isStr := res.(String)
-		vAssert("substr:string", isStr)
-		vAssert("substr==units[rel(start):min(start+clamp(length),len)]", isStr && vC01IsSub(vC01UnitsOf(s), x.units, w.from, w.to))
-	case 3: // at(index)
-		p := vC01Guard(func() { res = r.stringproto_at(FunctionCall{This: x.val, Arguments: []Value{a0.v}}) })
-		vAssert("at:no-go-panic", !p)
-		if p {
-			return
-		}
-		k := refC01At(l, a0.i)
-		if k < 0 {
-			vAssert("at:out-of-range=>undefined", res == _undefined)
-		} else {
+	})
+	vAssert("pos:no-go-panic", !p)
+	if p {
+		return
+	}
+	k := refC01Pos(l, a0.i)
+	if m == 0 {
+		k = refC01At(l, a0.i)
+	}
+	if k < 0 {
+		good := false
+		switch m {
+		case 0, 3:
+			good = res == _undefined
+		case 1:
 			s, isStr := res.(String)
-			vAssert("at==unit[k]", isStr && vC01IsSub(vC01UnitsOf(s), x.units, k, k+1))
+			good = isStr && s.Length() == 0
+		default:
+			good = vC01IsNaNValue(res)
 		}
-	case 4: // charAt(pos)
-		p := vC01Guard(func() { res = r.stringproto_charAt(FunctionCall{This: x.val, Arguments: []Value{a0.v}}) })
-		vAssert("charAt:no-go-panic", !p)
-		if p {
-			return
-		}
-		k := refC01Pos(l, a0.i)
+		vAssert("pos:outside=>undefined/empty/NaN", good)
+		return
+	}
+	good := false
+	switch m {
+	case 0, 1:
 		s, isStr := res.(String)
-		vAssert("charAt:string", isStr)
-		if !isStr {
-			return
+		good = isStr && vC01IsSub(vC01UnitsOf(s), x.units, k, k+1)
+	case 2:
+		good = vC01NumberIs(res, int64(vC01UnitAt(x.units, k)))
+	default:
+		good = vC01NumberIs(res, refC01CodePoint(vC01UnitAt(x.units, k), vC01UnitAt(x.units, k+1), k+1 < l))
+	}
+	vAssert("pos:inside=>the-unit/its-code/the-code-point", good)
+}
+
+const vC01MaxInt32 = math.MaxInt32
+
+// ---------------------------------------------------------------------
+// H01.7 padStart / padEnd (22.1.3.16/.17, StringPad 22.1.3.17.1): maxLength is EVERY int64-valued argument in
+// three bands (<= len symbolic; len+1..len+P concrete; > 2^31-1 symbolic); the band in between allocates up to
+// 2 GiB and is outside. goja's documented limit: a result longer than 2^31-1 units is RangeError("Invalid
+// string length") — the size handed to Grow / make is then never negative, wrapped or beyond Go's limit.
+
+// symbolic-mode stand-in for strings.Builder.Grow that keeps its documented panics (negative count; makeslice
+// beyond the allocation limit) and otherwise does nothing (capacity is unobservable)
+func vC01StubGrowKeep(b *strings.Builder, n int) {
+	if n < 0 {
+		panic("strings.Builder.Grow: negative count")
+	}
+	if n >= 1<<40 {
+		panic("runtime error: makeslice: len out of range")
+	}
+}
+
+func vC01Filler(name string) (v Value, units []uint16, undef bool) {
+	switch vChoice(name+".kind", 6) {
+	case 0:
+		return _undefined, []uint16{' '}, true
+	case 1:
+		return stringEmpty, []uint16{}, false
+	case 2, 3:
+		n := vChoice(name+".alen", 2) + 1
+		s := vNondetString(name+".a", n)
+		units = make([]uint16, n)
+		for i := 0; i < n; i++ {
+			vAssume(s[i] < 0x80)
+			units[i] = uint16(s[i])
 		}
-		if k < 0 {
-			vAssert("charAt:out-of-range=>empty", s.Length() == 0)
+		return asciiString(s), units, false
+	}
+	n := vChoice(name+".ulen", 2) + 1
+	units = vNondetUint16s(name+".u", n)
+	vAssume(vC06HasNonASCII(units))
+	buf := make([]uint16, n+1)
+	buf[0] = unistring.BOM
+	copy(buf[1:], units)
+	return unicodeString(buf), units, false
+}
+
+func H_C01_strPad() {
+	r := vRuntime()
+	x := vC01NewStr("s", vBound("U"))
+	l := int64(len(x.units))
+	atStart := vBound("M") == 0
+	fv, fu, _ := vC01Filler("fill")
+	band := vChoice("band", 3)
+	var ml int64
+	switch band {
+	case 0:
+		ml = vNondetInt64("maxLength")
+		vAssume(ml <= l)
+	case 1:
+		ml = l + 1 + int64(vChoice("extra", vBound("P")))
+	default:
+		ml = vNondetInt64("maxLength")
+		vAssume(ml > math.MaxInt32)
+	}
+	fired := 0
+	arg := &vC17Arg{i: ml, fired: &fired}
+	call := FunctionCall{This: x.val, Arguments: []Value{arg, fv}}
+	var res Value
+	var out vOutcome
+	p := vC01Guard(func() {
+		out = vCatch(func() {
+			if atStart {
+				res = r.stringproto_padStart(call)
+			} else {
+				res = r.stringproto_padEnd(call)
+			}
+		})
+	})
+	vAssert("pad:no-go-panic", !p)
+	if p {
+		return
+	}
+	if band == 0 || len(fu) == 0 {
+		s, isStr := res.(String)
+		vAssert("pad:maxLength<=len-or-empty-filler=>receiver-unchanged", !out.panicked && isStr && vC01IsSub(vC01UnitsOf(s), x.units, 0, l))
+		return
+	}
+	if band == 2 {
+		vAssert("pad:beyond-2^31-1-units=>RangeError", out.panicked && out.kind == "RangeError")
+		return
+	}
+	s, isStr := res.(String)
+	vAssert("pad:no-throw", !out.panicked && isStr)
+	if out.panicked || !isStr {
+		return
+	}
+	got := vC01UnitsOf(s)
+	n := int(ml - l) // concrete
+	ok := len(got) == int(ml)
+	for i := 0; ok && i < len(got); i++ {
+		var w uint16
+		if atStart {
+			if i < n {
+				w = fu[i%len(fu)]
+			} else {
+				w = x.units[i-n]
+			}
 		} else {
-			vAssert("charAt==unit[pos]", vC01IsSub(vC01UnitsOf(s), x.units, k, k+1))
+			if i < int(l) {
+				w = x.units[i]
+			} else {
+				w = fu[(i-int(l))%len(fu)]
+			}
 		}
-	case 5: // charCodeAt(pos)
-		p := vC01Guard(func() { res = r.stringproto_charCodeAt(FunctionCall{This: x.val, Arguments: []Value{a0.v}}) })
-		vAssert("charCodeAt:no-go-panic", !p)
+		if got[i] != w {
+			ok = false
+		}
+	}
+	vAssert("pad:result==filler-repeated-and-truncated+receiver", ok)
+}
+
+// ---------------------------------------------------------------------
+// H01.5 — array creation and length. ECMA-262 23.1.1.1 Array(len): a Number len that is not an integer in
+// [0, 2^32-1] is a RangeError, otherwise an array of that length (no element storage is needed: goja must not
+// size an allocation by it); 10.4.2.4 ArraySetLength: newLen = ToUint32(V), numberLen = ToNumber(V), RangeError
+// unless they are the same value (+0/-0 alike), then elements >= newLen disappear.
+
+// refC01Uint32Of: the double is an integer in [0, 2^32-1] (-0 counts as 0); its value
+type refC01U32 struct {
+	ok bool
+	n  uint32
+}
+
+func refC01Uint32Of(bits uint64) refC01U32 {
+	if bits == 1<<63 || bits == 0 {
+		return refC01U32{true, 0}
+	}
+	if bits>>63 != 0 {
+		return refC01U32{}
+	}
+	exp := int((bits >> 52) & 0x7ff)
+	man := bits&(1<<52-1) | 1<<52
+	e := exp - 1075 // value = man * 2^e, man in [2^52, 2^53)
+	if exp == 0 || e > -21 || e < -52 {
+		// subnormal / >= 2^32 (2^52 * 2^-20) / < 1
+		return refC01U32{}
+	}
+	sh := uint(-e)
+	if man&(1<<sh-1) != 0 {
+		return refC01U32{} // fraction
+	}
+	return refC01U32{true, uint32(man >> sh)}
+}
+
+var vC01LenStrings = []struct {
+	s  string
+	ok bool
+	n  uint32
+}{
+	{"", true, 0}, {"3", true, 3}, {"4294967295", true, 4294967295}, {"4294967296", false, 0}, {"-1", false, 0},
+	{"1.5", false, 0}, {"1e1", true, 10}, {"abc", false, 0}, {" 2 ", true, 2}, {"0x2", true, 2}, {"-0", true, 0},
+}
+
+func H_C01_newArray() {
+	r := vRuntime()
+	kind := vChoice("args", 3)
+	var args []Value
+	var want refC01U32
+	switch kind {
+	case 0:
+		n := vNumber("len")
+		args = []Value{n}
+		want = refC01Uint32Of(vNumberBits(n))
+	case 1:
+		args = []Value{asciiString("7")} // not a Number: a one-element array
+	default:
+		args = []Value{valueInt(int64(vNondetInt32("e0"))), valueInt(int64(vNondetInt32("e1")))}
+	}
+	var res *Object
+	var out vOutcome
+	p := vC01Guard(func() { out = vCatch(func() { res = r.builtin_newArray(args, nil) }) })
+	vAssert("newArray:no-go-panic", !p)
+	if p {
+		return
+	}
+	if kind == 0 && !want.ok {
+		vAssert("newArray:len-not-uint32=>RangeError", out.panicked && out.kind == "RangeError")
+		return
+	}
+	vAssert("newArray:no-throw", !out.panicked && res != nil)
+	if out.panicked || res == nil {
+		return
+	}
+	a, isArr := res.self.(*arrayObject)
+	vAssert("newArray:is-array", isArr)
+	if !isArr {
+		return
+	}
+	if kind == 0 {
+		vAssert("newArray:length==len,no-storage-sized-by-len", a.length == want.n && len(a.values) == 0 && cap(a.values) <= 16 && a.objCount == 0)
+	} else {
+		good := a.length == uint32(len(args)) && len(a.values) == len(args) && a.objCount == len(args)
+		for i := 0; good && i < len(args); i++ {
+			if a.values[i] != args[i] {
+				good = false
+			}
+		}
+		vAssert("newArray:elements==arguments", good)
+	}
+}
+
+// Array length assignment / definition with EVERY Number, a numeric-or-not String, or a value that is coerced
+// twice (the legacy ToUint32 + ToNumber order), on a dense array of n <= N plain elements
+func H_C01_arrayLength() {
+	r := vRuntime()
+	geo := [][2]int{{0, 0}, {2, 1}, {20, 80}, {5, 0}, {17, 3}, {40, 200}}[vChoice("geometry", vBound("G"))]
+	n, spare := geo[0], geo[1]
+	a := r.newArray(nil)
+	a.values = make([]Value, n, n+spare)
+	for i := 0; i < n; i++ {
+		a.values[i] = valueInt(int64(100 + i))
+	}
+	a.objCount = n
+	extra := vNondetUint32("extraLength")
+	vAssume(extra <= math.MaxUint32-uint32(n))
+	a.length = uint32(n) + extra
+	var v Value
+	var want refC01U32
+	kindV := vChoice("value", 3)
+	switch kindV {
+	case 0:
+		v = vNumber("len")
+		want = refC01Uint32Of(vNumberBits(v))
+	case 1:
+		e := vC01LenStrings[vChoice("str", len(vC01LenStrings))]
+		v = asciiString(e.s)
+		want = refC01U32{e.ok, e.n}
+	default:
+		x := vNewValue("obj", func() {})
+		v = x
+		want = refC01Uint32Of(vNumberBits(x.num))
+	}
+	viaDefine := kindV == 0 && vChoice("via", 2) == 1
+	var ret bool
+	var out vOutcome
+	p := vC01Guard(func() {
+		out = vCatch(func() {
+			if viaDefine {
+				ret = a.defineOwnPropertyStr("length", PropertyDescriptor{Value: v}, true)
+			} else {
+				ret = a.setOwnStr("length", v, true)
+			}
+		})
+	})
+	vAssert("arrayLength:no-go-panic", !p)
+	if p {
+		return
+	}
+	if !want.ok {
+		good := out.panicked && out.kind == "RangeError" && a.length == uint32(n)+extra && len(a.values) == n
+		vAssert("arrayLength:not-uint32=>RangeError,array-untouched", good)
+		return
+	}
+	vAssert("arrayLength:no-throw", !out.panicked && ret)
+	if out.panicked {
+		return
+	}
+	keep := n
+	if want.n < uint32(n) {
+		keep = int(want.n)
+	}
+	good := a.length == want.n && len(a.values) == keep && a.objCount == keep
+	for i := 0; good && i < keep; i++ {
+		if a.values[i] != valueInt(int64(100+i)) {
+			good = false
+		}
+	}
+	// storage behind len(values) must be cleared (expand() re-slices into it and treats it as holes)
+	full := a.values[:cap(a.values)]
+	for i := len(a.values); i < len(full); i++ {
+		if full[i] != nil {
+			good = false
+		}
+	}
+	vAssert("arrayLength:length==newLen,elements>=newLen-gone,spare-storage-cleared", good)
+}
+
+// ---------------------------------------------------------------------
+// H01.6 — ArrayBuffer / TypedArray(length) size arithmetic. ECMA-262 25.1.4.1 ArrayBuffer(length) and 23.2.5.1
+// TypedArray(length): ToIndex(length) is a RangeError unless the integer lies in [0, 2^53-1]; the byte length
+// length*elementSize must be computed without wrap-around, and an allocation that cannot be satisfied is a
+// RangeError (never a Go makeslice panic); on success the view covers exactly its buffer.
+
+var vC01AllocLog []int
+
+func init() { vResetHooks = append(vResetHooks, func() { vC01AllocLog = nil }) }
+
+// symbolic-mode stand-in for allocByteSlice, by its contract: negative or beyond Go's allocation limit (2^48
+// bytes) => rangeError; sizes up to 64 are really allocated; the band in between is excluded by the harness
+func vC01StubAllocByteSlice(size int) []byte {
+	vC01AllocLog = append(vC01AllocLog, size)
+	if size < 0 {
+		panic(rangeError("Invalid buffer size"))
+	}
+	if size > 1<<48 {
+		panic(rangeError("Buffer size is too large"))
+	}
+	vAssume(size <= 64)
+	return make([]byte, vConcretize(size))
+}
+
+func H_C01_bufferAlloc() {
+	r := vRuntime()
+	vC17MoreCtors(r)
+	kinds := []int{-1, vkUint8, vkInt16, vkFloat32, vkFloat64, vkInt8, vkUint16, vkInt32, vkUint32, vkUint8Clamped}
+	kind := kinds[vChoice("kind", vBound("K"))]
+	esz := int64(1)
+	if kind >= 0 {
+		esz = int64(vElemSize(kind))
+	}
+	arg := vC17IntArg("length", nil)
+	i := arg.i
+	inIndexRange := i >= 0 && i <= 1<<53-1
+	// outside the claim: byte sizes in (64, 2^49) — real allocations up to Go's limit (memory exhaustion is not a panic
+	// that could be caught: the process dies)
+	if inIndexRange {
+		vAssume(i*esz <= 64 || i*esz >= 1<<49)
+	}
+	nt := vC17NewHookObj(r, func() {})
+	var res *Object
+	var out vOutcome
+	p := vC01Guard(func() {
+		out = vCatch(func() {
+			if kind < 0 {
+				res = r.builtin_newArrayBuffer([]Value{arg}, nt)
+			} else {
+				res = r._newTypedArray([]Value{arg}, nt, vC17CtorOf(r, kind), nil)
+			}
+		})
+	})
+	vAssert("bufferAlloc:no-go-panic", !p)
+	if p {
+		return
+	}
+	if !inIndexRange {
+		vAssert("bufferAlloc:ToIndex-outside-[0,2^53-1]=>RangeError", out.panicked && out.kind == "RangeError")
+		return
+	}
+	if i*esz > 64 {
+		vAssert("bufferAlloc:unsatisfiable-size=>RangeError", out.panicked && out.kind == "RangeError")
+		return
+	}
+	vAssert("bufferAlloc:no-throw", !out.panicked && res != nil)
+	if out.panicked || res == nil {
+		return
+	}
+	if kind < 0 {
+		ab, isAB := res.self.(*arrayBufferObject)
+		vAssert("bufferAlloc:ArrayBuffer-byteLength==length", isAB && !ab.detached && int64(len(ab.data)) == i)
+		return
+	}
+	ta, isTA := res.self.(*typedArrayObject)
+	vAssert("bufferAlloc:is-typed-array", isTA)
+	if !isTA {
+		return
+	}
+	good := ta.offset == 0 && int64(ta.length) == i && int64(ta.elemSize) == esz && ta.viewedArrayBuf != nil &&
+		int64(len(ta.viewedArrayBuf.data)) == i*esz
+	vAssert("bufferAlloc:view-covers-exactly-its-buffer(length*elemSize bytes)", good)
+}
+
+// allocByteSlice itself on sizes that never allocate more than a few bytes or are beyond Go's limit
+func H_C01_allocByteSlice() {
+	sizes := []int{-1, math.MinInt64, 0, 1, 9, 1<<48 + 1, 1 << 62, math.MaxInt64}
+	size := sizes[vChoice("size", len(sizes))]
+	var b []byte
+	var out vOutcome
+	p := vC01Guard(func() { out = vCatch(func() { b = allocByteSlice(size) }) })
+	vAssert("allocByteSlice:no-go-panic", !p)
+	if p {
+		return
+	}
+	if size < 0 || size > 9 {
+		vAssert("allocByteSlice:negative-or-unsatisfiable=>RangeError", out.panicked && out.kind == "RangeError")
+		return
+	}
+	good := !out.panicked && len(b) == size
+	for _, c := range b {
+		if c != 0 {
+			good = false
+		}
+	}
+	vAssert("allocByteSlice:zeroed-slice-of-size", good)
+}
+
+// ---------------------------------------------------------------------
+// H01.8 — VM instructions that address the operand stack with computed offsets, on a hand-built stack AT ITS
+// HIGH-WATER MARK (len(stack) == sp, spare capacity 0/1/8 holding stale non-nil values): every slot the
+// instruction touches must have been reserved through valueStack.expand first (otherwise a Go index-out-of-range
+// panic in the host), the slots it does not own stay untouched, new locals are empty (nil) and missing
+// parameters undefined (ECMA-262 10.2.11 FunctionDeclarationInstantiation).
+// Assumed operand invariants (what the compiler emits): dupN/rdupN d <= sp-1; dupLast d <= sp; endVariadic
+// sp >= 2; a variadic marker is on the stack when callVariadic/newVariadic count their arguments; enterCatchBlock
+// stashSize >= 1; enterFunc1 argsToCopy <= numArgs <= stashSize; vm.args + 2 <= sp at function entry.
+
+func vC01NewStack(sp, spare int) *vm {
+	m := &vm{r: vRuntime()}
+	full := make(valueStack, sp+spare)
+	for i := range full {
+		full[i] = valueInt(int64(5000 + i)) // stale values beyond sp: must never be taken for fresh locals
+	}
+	m.stack = full[:sp]
+	m.sp = sp
+	return m
+}
+
+// vC01StackKept: slots [0,upto) still hold their original markers, except slot `except`
+func vC01StackKept(m *vm, upto, except int) bool {
+	ok := upto <= len(m.stack)
+	for i := 0; ok && i < upto; i++ {
+		if i != except && m.stack[i] != valueInt(int64(5000+i)) {
+			ok = false
+		}
+	}
+	return ok
+}
+
+func vC01AllNil(vs []Value) bool {
+	for _, v := range vs {
+		if v != nil {
+			return false
+		}
+	}
+	return true
+}
+
+func vC01AllUndef(vs []Value) bool {
+	for _, v := range vs {
+		if v != _undefined {
+			return false
+		}
+	}
+	return true
+}
+
+func H_C01_stackOps() {
+	S := vBound("S")
+	sp := vChoice("sp", S+1)
+	spare := []int{0, 1, 8}[vChoice("spare", 3)]
+	m := vC01NewStack(sp, spare)
+	op := vBound("OPLO") + vChoice("op", vBound("OPHI")-vBound("OPLO")+1)
+	switch op {
+	case 0: // dupN
+		vAssume(sp >= 1)
+		d := vChoice("d", sp)
+		p := vC01Guard(func() { dupN(d).exec(m) })
+		vAssert("stackOps:no-go-panic", !p)
 		if p {
 			return
 		}
-		k := refC01Pos(l, a0.i)
-		if k < 0 {
-			vAssert("charCodeAt:out-of-range=>NaN", vC01IsNaNValue(res))
-		} else {
-			vAssert("charCodeAt==unit[pos]", vC01NumberIs(res, int64(vC01UnitAt(x.units, k))))
-		}
-	case 6: // codePointAt(pos)
-		p := vC01Guard(func() { res = r.stringproto_codePointAt(FunctionCall{This: x.val, Arguments: []Value{a0.v}}) })
-		vAssert("codePointAt:no-go-panic", !p)
+		vAssert("stackOps:effect", m.sp == sp+1 && m.sp <= len(m.stack) && vC01StackKept(m, sp, -1) && m.stack[sp] == valueInt(int64(5000+sp-1-d)) && m.pc == 1)
+	case 1: // rdupN
+		vAssume(sp >= 1)
+		d := vChoice("d", sp)
+		p := vC01Guard(func() { rdupN(d).exec(m) })
+		vAssert("stackOps:no-go-panic", !p)
 		if p {
 			return
 		}
-		k := refC01Pos(l, a0.i)
-		if k < 0 {
-			vAssert("codePointAt:out-of-range=>undefined", res == _undefined)
-		} else {
-			want := refC01CodePoint(vC01UnitAt(x.units, k), vC01UnitAt(x.units, k+1), k+1 < l)
-			vAssert("codePointAt==CodePointAt(S,pos)", vC01NumberIs(res, want))
+		vAssert("stackOps:effect", m.sp == sp && vC01StackKept(m, sp, sp-1-d) && m.stack[sp-1-d] == valueInt(int64(5000+sp-1)) && m.pc == 1)
+	case 2: // dupLast
+		d := vChoice("d", sp+1)
+		p := vC01Guard(func() { dupLast(d).exec(m) })
+		vAssert("stackOps:no-go-panic", !p)
+		if p {
+			return
 		}
+		good := m.sp == sp+d && m.sp <= len(m.stack) && vC01StackKept(m, sp, -1) && m.pc == 1
+		for i := 0; good && i < d; i++ {
+			if m.stack[sp+i] != valueInt(int64(5000+sp-d+i)) {
+				good = false
+			}
+		}
+		vAssert("stackOps:effect", good)
+	case 3: // startVariadic ... endVariadic / countVariadicArgs
+		vAssume(sp >= 2)
+		mk := vChoice("marker", sp-1) // position of the marker, at least one value (the call result / callee) above it
+		m.stack[mk] = variadicMarker
+		cnt := -1
+		p := vC01Guard(func() { cnt = m.countVariadicArgs() })
+		vAssert("stackOps:no-go-panic", !p)
+		if p {
+			return
+		}
+		ok := cnt == sp-1-mk
+		// after the call the result sits directly above the marker: endVariadic drops the marker
+		m.sp = mk + 2
+		p = vC01Guard(func() { endVariadic.exec(m) })
+		vAssert("stackOps:no-go-panic", !p)
+		if p {
+			return
+		}
+		vAssert("stackOps:effect", ok && m.sp == mk+1 && m.stack[mk] == valueInt(int64(5000+mk+1)) && vC01StackKept(m, mk, -1))
+	case 4: // startVariadic pushes on a full stack
+		p := vC01Guard(func() { startVariadic.exec(m) })
+		vAssert("stackOps:no-go-panic", !p)
+		if p {
+			return
+		}
+		vAssert("stackOps:effect", m.sp == sp+1 && m.sp <= len(m.stack) && m.stack[sp] == variadicMarker && vC01StackKept(m, sp, -1))
+	case 5: // enterBlock / enterCatchBlock
+		ss := vChoice("stackSize", vBound("L")+1)
+		st := vChoice("stashSize", 3)
+		catch := vChoice("catch", 2) == 1
+		if catch {
+			vAssume(st >= 1 && sp >= 1)
+		}
+		outer := &stash{}
+		m.stash = outer
+		p := vC01Guard(func() {
+			if catch {
+				(&enterCatchBlock{stashSize: uint32(st), stackSize: uint32(ss)}).exec(m)
+			} else {
+				(&enterBlock{stashSize: uint32(st), stackSize: uint32(ss)}).exec(m)
+			}
+		})
+		vAssert("stackOps:no-go-panic", !p)
+		if p {
+			return
+		}
+		base := sp
+		if catch {
+			base = sp - 1
+		}
+		good := m.sp == base+ss && m.sp <= len(m.stack) && vC01StackKept(m, base, -1) && vC01AllNil(m.stack[base:m.sp]) && m.pc == 1
+		if st > 0 {
+			good = good && m.stash != outer && m.stash.outer == outer && len(m.stash.values) == st
+			if catch {
+				good = good && m.stash.values[0] == valueInt(int64(5000+sp-1)) && vC01AllNil(m.stash.values[1:])
+			} else {
+				good = good && vC01AllNil(m.stash.values)
+			}
+		} else {
+			good = good && m.stash == outer
+		}
+		vAssert("stackOps:effect", good)
+	case 6: // enterFuncStashless
+		vAssume(sp >= 2)
+		args := vChoice("args", sp-1)
+		m.args = args
+		ss := vChoice("stackSize", vBound("L")+1)
+		decl := vChoice("declared", vBound("P")+1)
+		p := vC01Guard(func() { (&enterFuncStashless{stackSize: uint32(ss), args: uint32(decl)}).exec(m) })
+		vAssert("stackOps:no-go-panic", !p)
+		if p {
+			return
+		}
+		na := max(args, decl)
+		good := m.sb == sp-args-1 && m.args == na && m.sp == sp+(na-args)+ss && m.sp <= len(m.stack) &&
+			vC01StackKept(m, sp, -1) && vC01AllUndef(m.stack[sp:sp+na-args]) && vC01AllNil(m.stack[sp+na-args:m.sp]) && m.pc == 1
+		vAssert("stackOps:effect", good)
+	case 7: // enterFunc1 followed by enterFuncBody{adjustStack}
+		vAssume(sp >= 2)
+		args := vChoice("args", sp-1)
+		m.args = args
+		decl := vChoice("declared", vBound("P")+1)
+		toCopy := vChoice("argsToCopy", decl+1)
+		stSize := decl + vChoice("stashExtra", 2)
+		ss := vChoice("stackSize", vBound("L")+1)
+		outer := &stash{}
+		m.stash = outer
+		p := vC01Guard(func() {
+			(&enterFunc1{stashSize: uint32(stSize), numArgs: uint32(decl), argsToCopy: uint32(toCopy)}).exec(m)
+		})
+		vAssert("stackOps:no-go-panic", !p)
+		if p {
+			return
+		}
+		st := m.stash
+		good := m.sb == sp-args-1 && m.sp == sp && vC01StackKept(m, sp, -1) && st != outer && st.outer == outer && len(st.values) == stSize
+		for i := 0; good && i < stSize; i++ {
+			var want Value
+			if i < toCopy {
+				want = _undefined
+				if i < args {
+					want = valueInt(int64(5000 + sp - args + i))
+				}
+			}
+			if st.values[i] != want {
+				good = false
+			}
+		}
+		extra := max(args-decl, 0)
+		if args > toCopy {
+			good = good && len(st.extraArgs) == extra
+			for i := 0; good && i < extra; i++ {
+				if st.extraArgs[i] != valueInt(int64(5000+sp-extra+i)) {
+					good = false
+				}
+			}
+		}
+		vAssert("stackOps:enterFunc1-effect", good)
+		body := &enterFuncBody{adjustStack: true}
+		body.stackSize = uint32(ss)
+		p = vC01Guard(func() { body.exec(m) })
+		vAssert("stackOps:no-go-panic", !p)
+		if p {
+			return
+		}
+		base := sp - args
+		vAssert("stackOps:effect", m.sp == base+ss && m.sp <= len(m.stack) && vC01StackKept(m, base, -1) && vC01AllNil(m.stack[base:m.sp]))
 	}
 }
